@@ -29,7 +29,17 @@ import (
 // nothing is evaluated twice or in a different order. Everything else is left as it stands.
 func normalizeValueMethods(p *core.Program) {
 	cands := map[*types.Func]*core.FuncInfo{}
+	producers := map[*types.Func]bool{}
+	expandedProducerCalls = nil
 	for _, fi := range p.Funcs {
+		// a package function that encodes into a stream of its own and hands back the bytes
+		// (func encodeRecs(n int, ver byte, next func() *Rec) []byte { o := io.NewDataOutputX(); …;
+		// return o.ToByteArray() }), shared by several writers: expanded where a writer assigns its result
+		if fi.Decl.Body != nil && fi.Decl.Recv == nil && !fi.Obj.Exported() && isBytesProducer(fi) {
+			cands[fi.Obj] = fi
+			producers[fi.Obj] = true
+			continue
+		}
 		if fi.Decl.Body == nil || fi.Decl.Recv == nil || len(fi.Decl.Recv.List) != 1 {
 			continue
 		}
@@ -70,7 +80,7 @@ func normalizeValueMethods(p *core.Program) {
 			if fi.Decl.Body == nil {
 				continue
 			}
-			v := &valInliner{p: p, fi: fi, info: fi.Pkg.TypesInfo, cands: cands, used: used}
+			v := &valInliner{p: p, fi: fi, info: fi.Pkg.TypesInfo, cands: cands, used: used, producers: producers}
 			if v.exprPass() {
 				changed = true
 			}
@@ -90,6 +100,10 @@ type valInliner struct {
 	info  *types.Info
 	cands map[*types.Func]*core.FuncInfo
 	used  map[[2]*types.Func]bool
+	// producers: candidates that are package functions (no receiver); arguments with effects are bound
+	// to the parameter in front of the expanded body
+	producers map[*types.Func]bool
+	pre       []ast.Stmt
 }
 
 // callOf: e (conversions and parentheses stripped) is a call of a candidate method other than the
@@ -98,6 +112,17 @@ func (v *valInliner) callOf(e ast.Expr) (*ast.CallExpr, *core.FuncInfo, ast.Expr
 	call, ok := ast.Unparen(e).(*ast.CallExpr)
 	if !ok || call.Ellipsis.IsValid() {
 		return nil, nil, nil
+	}
+	if id, isId := ast.Unparen(call.Fun).(*ast.Ident); isId {
+		fn, _ := v.info.Uses[id].(*types.Func)
+		if fn == nil || fn == v.fi.Obj || !v.producers[fn] {
+			return nil, nil, nil
+		}
+		hf := v.cands[fn]
+		if hf == nil || hf.Pkg != v.fi.Pkg {
+			return nil, nil, nil
+		}
+		return call, hf, nil
 	}
 	sel, ok := ast.Unparen(call.Fun).(*ast.SelectorExpr)
 	if !ok {
@@ -156,12 +181,20 @@ func (v *valInliner) bind(hf *core.FuncInfo, call *ast.CallExpr, recv ast.Expr) 
 				return nil
 			}
 			// the argument is converted to the parameter's type on the way in
-			repl[obj] = v.convTo(obj.Type(), call.Args[i])
+			if v.producers[hf.Obj] && !v.pure(call.Args[i]) {
+				// evaluated once, in front of the body, under the parameter's own name
+				v.pre = append(v.pre, &ast.AssignStmt{Lhs: []ast.Expr{nm}, TokPos: call.Args[i].Pos(), Tok: token.DEFINE, Rhs: []ast.Expr{call.Args[i]}})
+			} else {
+				repl[obj] = v.convTo(obj.Type(), call.Args[i])
+			}
 			i++
 		}
 	}
 	if i != len(call.Args) {
 		return nil
+	}
+	if hf.Decl.Recv == nil {
+		return repl
 	}
 	ro := v.info.Defs[hf.Decl.Recv.List[0].Names[0]]
 	if ro == nil {
@@ -495,6 +528,7 @@ func (v *valInliner) expandStmt(st ast.Stmt) ast.Stmt {
 	if v.used[[2]*types.Func{v.fi.Obj, hf.Obj}] {
 		return nil
 	}
+	v.pre = nil
 	repl := v.bind(hf, call, recv)
 	if repl == nil {
 		return nil
@@ -557,7 +591,13 @@ func (v *valInliner) expandStmt(st ast.Stmt) ast.Stmt {
 	if !ok || failed {
 		return nil
 	}
-	v.used[[2]*types.Func{v.fi.Obj, hf.Obj}] = true
+	if !v.producers[hf.Obj] {
+		v.used[[2]*types.Func{v.fi.Obj, hf.Obj}] = true
+	} else {
+		expandedProducerCalls = append(expandedProducerCalls, hf.Obj)
+	}
+	list = append(append([]ast.Stmt{}, v.pre...), list...)
+	v.pre = nil
 	return &ast.BlockStmt{Lbrace: st.Pos(), List: list, Rbrace: st.End()}
 }
 
@@ -590,3 +630,68 @@ func (v *valInliner) independent(lhs, rhs []ast.Expr) bool {
 	}
 	return ok
 }
+
+// isBytesProducer: the function returns []byte, makes an output stream of its own and every return
+// hands back that stream's bytes.
+func isBytesProducer(fi *core.FuncInfo) bool {
+	sig := fi.Obj.Type().(*types.Signature)
+	if sig.Results().Len() != 1 || sig.Variadic() || !isByteSlice(sig.Results().At(0).Type()) {
+		return false
+	}
+	info := fi.Pkg.TypesInfo
+	makes, rets, good := 0, 0, 0
+	ast.Inspect(fi.Decl.Body, func(n ast.Node) bool {
+		switch x := n.(type) {
+		case *ast.FuncLit:
+			return false
+		case *ast.CallExpr:
+			if sel, ok := ast.Unparen(x.Fun).(*ast.SelectorExpr); ok && sel.Sel.Name == "NewDataOutputX" {
+				if fn, _ := info.Uses[sel.Sel].(*types.Func); fn != nil && fn.Pkg() != nil && fn.Pkg().Path() == core.ModPath+"/io" {
+					makes++
+				}
+			}
+		case *ast.ReturnStmt:
+			rets++
+			if len(x.Results) == 1 {
+				if c, ok := ast.Unparen(x.Results[0]).(*ast.CallExpr); ok {
+					if sel, ok := ast.Unparen(c.Fun).(*ast.SelectorExpr); ok && sel.Sel.Name == "ToByteArray" {
+						good++
+					}
+				}
+			}
+		}
+		return true
+	})
+	return makes == 1 && rets == 1 && good == 1
+}
+
+// expandedEverywhere: fi is a shared bytes producer and no call of it is left anywhere in the program
+// after normalisation (every call stood in a statement that was replaced by its body).
+func expandedEverywhere(p *core.Program, fi *core.FuncInfo) bool {
+	if fi.Decl.Recv != nil || fi.Obj.Exported() || !isBytesProducer(fi) {
+		return false
+	}
+	left, seen := 0, 0
+	for _, g := range p.Funcs {
+		if g.Decl.Body == nil || g.Pkg != fi.Pkg {
+			continue
+		}
+		ast.Inspect(g.Decl.Body, func(n ast.Node) bool {
+			if c, ok := n.(*ast.CallExpr); ok {
+				if id, ok := ast.Unparen(c.Fun).(*ast.Ident); ok && g.Pkg.TypesInfo.Uses[id] == types.Object(fi.Obj) {
+					left++
+				}
+			}
+			return true
+		})
+	}
+	for _, k := range expandedProducerCalls {
+		if k == fi.Obj {
+			seen++
+		}
+	}
+	return left == 0 && seen > 0
+}
+
+// expandedProducerCalls: one entry per expanded call of a bytes producer (reset per loaded program).
+var expandedProducerCalls []*types.Func
